@@ -572,7 +572,6 @@ var harness = &simcheck.Harness{
 		"a Transform that returned an error must leave the contents it was given (single fault); when the rollback is made to fail too (double fault) only absence of panic/deadlock is asserted",
 		"faults are injected only into Transform (the statement promises rollback only there); a failing Write is out of scope",
 	},
-	ManualGC:         true,
 	RequiredCounters: []string{"flock_calls", "histories_checked", "ops_started_while_another_in_flight", "probe_lock_request_blocked"},
 }
 
